@@ -51,16 +51,19 @@ impl Slots {
             // Note: the indexing check is almost certainly optimised out because the len
             // is used above. And using .get_unchecked was actually *slower*.
             let slot = &self.0[i];
+            verif_step!(FAST_SCAN);
             if slot.0.load(Relaxed) == Debt::NONE {
                 // We are allowed to split into the check and acquiring the debt. That's because we
                 // are the only ones allowed to change NONE to something else. But we still need a
                 // read-write operation wit SeqCst on it :-(
+                verif_step!(FAST_SWAP);
                 let old = slot.0.swap(ptr, SeqCst);
                 debug_assert_eq!(Debt::NONE, old);
                 local.offset.set(i + 1);
                 return Some(&self.0[i]);
             }
         }
+        verif_step!(FAST_FULL);
         None
     }
 }
